@@ -45,12 +45,12 @@ func c19TypeNames(tier string) []string {
 var c19IDs = []struct {
 	s     string
 	valid bool
-}{{"1", true}, {"a", true}, {"A-1.b", true}, {strings.Repeat("x", 64), true}, {"0", true}, {"_history", false}, {"", false}, {strings.Repeat("x", 65), false}, {"a_b", false}, {"a/b", false}, {"a b", false}, {"é", false}, {"a#b", false}, {"a|b", false}}
+}{{"1", true}, {"a", true}, {"A-1.b", true}, {strings.Repeat("x", 64), true}, {"0", true}, {"Patient", true}, {"Observation", true}, {"Basic", true}, {"history", true}, {"_history", false}, {"", false}, {strings.Repeat("x", 65), false}, {"a_b", false}, {"a/b", false}, {"a b", false}, {"é", false}, {"a#b", false}, {"a|b", false}}
 
 var c19Versions = []struct {
 	s     string
 	valid bool
-}{{"", true}, {"1", true}, {"v-1.0", true}, {strings.Repeat("9", 64), true}, {"a_b", false}, {strings.Repeat("9", 65), false}}
+}{{"", true}, {"1", true}, {"v-1.0", true}, {"Basic", true}, {"Patient", true}, {strings.Repeat("9", 64), true}, {"a_b", false}, {strings.Repeat("9", 65), false}}
 
 var c19Bases = []string{"", "http://h", "https://h:8080", "https://h/a/b/fhir", "http://h.example.org/fhir-r4", "https://h/a%20b/$x", "http://h/", "http://h/fhir//", "http://h/Patient", "http://h/Patient/1", "https://h.example.org/v1/datasets/my_dataset/fhirStores/my_store/fhir"}
 
